@@ -423,6 +423,16 @@ def _P(n, d):
 
 # fixed programs (run before the random ones): nested DAGs whose defaulted parameters are bound positionally
 CORPUS = [
+    # inside a nested DAG a node takes an INDEXED / unpacked result by keyword (and the same positionally)
+    dict(name="p", params=[_P("a0", None)], funs=[_fun(0), _fun(1)],
+         stmts=[dict(op="sub", d=0, args=[["param", 0]], active=None)],
+         ret=dict(shape="tuple", items=[["var", 0, [0]], ["var", 0, [1]]]), fails=[], maxc=2, is_async=False,
+         subs=[dict(name="p_s0", params=[_P("a0", None)], funs=[_fun(10, "idx", truths=[True, False]), _fun(11), _fun(12, "dict", keys=[["k0", True], [["t", 1], False]])],
+                    stmts=[dict(op="call", f=0, args=[["param", 0]], kwargs={}, active=None),
+                           dict(op="call", f=2, args=[["param", 0]], kwargs={}, active=None),
+                           dict(op="call", f=1, args=[["var", 0, [0]]], kwargs={"kw0": ["var", 0, [1]], "kw1": ["var", 1, ["k0"]]}, active=None),
+                           dict(op="call", f=1, args=[], kwargs={"kw0": ["var", 1, [["t", 1]]]}, active=None)],
+                    ret=dict(shape="tuple", items=[["var", 2, []], ["var", 3, []]]), subs=[], fails=[], maxc=2, is_async=False)]),
     # inner(x, y=10, z=100) called as inner(a): y and z keep THEIR defaults
     dict(name="p", params=[_P("a0", None)], funs=[_fun(0), _fun(1)],
          stmts=[dict(op="sub", d=0, args=[["param", 0]], active=None), dict(op="call", f=0, args=[["var", 0, [0]], ["var", 0, [1]]], kwargs={}, active=None)],
